@@ -19,6 +19,7 @@ def branch (c : CS) (b : String) : CS :=
 def step (c : CS) (l : Line) : CS :=
   let c := { c with line := c.line + 1 }
   if l.kind = "hist" then { c with profile := (l.nat? "profile").getD 0 } else
+  if l.kind = "tour" then branch c s!"tour/{l.str "cmd"}/{if l.nat "rc" = 0 then "ok" else toString (l.nat "rc")}" else
   if l.kind ≠ "x" then c else
   let c := { c with rep := { c.rep with events := c.rep.events + 1 } }
   let req := l.bytes "req"; let rsp := l.bytes "rsp"
@@ -26,6 +27,7 @@ def step (c : CS) (l : Line) : CS :=
   let c := branch c s!"cc={cc}/rc={if rc = 0 then "ok" else toString rc}"
   let c := if l.nat "ret" ≠ 0 then mism c s!"SPEC[process-ret] TPMLIB_Process returned {l.nat "ret"}" else c
   let c := if l.nat "infail" ≠ 0 then mism c s!"SPEC[failure-mode] the command (cc={cc}) drove the TPM into failure mode" else c
+  let c := if rc = 0 ∧ (lookup cc).isSome ∧ (respParams cc).isNone then branch c s!"noschema/cc={cc}" else c
   let c := match checkResponse req rsp (l.nat "bufsize") with
     | some msg => mism c s!"SPEC[malformed-response] {msg}; req={hexOfBytes (req.take 40)} rsp={hexOfBytes (rsp.take 40)}"
     | none => c
